@@ -5,7 +5,21 @@
 //   {"op":"SetThr","i":1..3,"v":0..5} | {"op":"Expr","sev":0..5,"tag":0|1,"items":[{"t":"s"|"i"|"c","v":...}]}
 //   {"op":"Begin","slot":k,"sev":..,"tag":..} | {"op":"Stream","slot":k,"item":{...}} | {"op":"End","slot":k}
 // observation per step: what reached the formatter / each sink member in this step, callable invocations, stream type.
+//   -DVERIF_LATE_MIN=<severity>: the minimum is defined in the source *after* other nitro/log headers were included and
+//   before log.hpp (the repository's own test defines it in the source too): the gate must not depend on include order.
 #include <common/vh.hpp>
+
+#ifdef VERIF_LATE_MIN
+#include <nitro/log/severity.hpp>
+
+#include <nitro/log/attribute/message.hpp>
+#include <nitro/log/attribute/severity.hpp>
+#include <nitro/log/attribute/tag.hpp>
+#include <nitro/log/filter/severity_filter.hpp>
+#include <nitro/log/sink/sequence.hpp>
+#undef NITRO_LOG_MIN_SEVERITY
+#define NITRO_LOG_MIN_SEVERITY VERIF_LATE_MIN
+#endif
 
 #include <nitro/log/log.hpp>
 
